@@ -93,6 +93,7 @@ func c06Run(c *core.Ctx) *core.Result {
 	o.SpecLinks = true
 	o.SymXattrs = true
 	var fs fsutil.FS
+	openFail := ""        // a file of the view whose Open fails
 	var want []tree.Entry // expected view in order (nil = not compared)
 	content := map[string][]byte{}
 	switch viewKind {
@@ -183,6 +184,22 @@ func c06Run(c *core.Ctx) *core.Result {
 		sfs := newSynthFS(t)
 		sfs.EOFWithData = R.P(1, 2)
 		sfs.ChunkMax = core.Pick(R, []int{0, 0, 1000, 32768})
+		if R.P(1, 8) {
+			// one announced file cannot be opened when it is requested (EACCES
+			// for an unprivileged sender, EIO, ...): its bytes cannot be sent,
+			// so the request cannot be answered as if the file were empty
+			var cands []string
+			for _, e := range t.Entries {
+				if e.Type == tree.File && e.LinkTo == "" && t.GroupOf(e.Path) == "" && len(e.Data) > 0 {
+					cands = append(cands, e.Path)
+				}
+			}
+			if len(cands) > 0 {
+				openFail = core.Pick(R, cands)
+				sfs.OpenErr = map[string]bool{openFail: true}
+				r.Count("views_with_a_file_that_cannot_be_opened", 1)
+			}
+		}
 		fs = sfs
 		want = t.Entries
 		for _, e := range t.Entries {
@@ -271,6 +288,18 @@ func c06Run(c *core.Ctx) *core.Result {
 			r.Nontrivial = true
 		}
 	} else {
+		openFailRequested := false
+		for _, id := range rr.reqOrder {
+			if openFail != "" && int(id) < len(rr.stats) && rr.stats[id].Path == openFail {
+				openFailRequested = true
+			}
+		}
+		if res.SendErr != nil && openFailRequested {
+			// the only honest answer to a request for a file that cannot be read
+			r.Count("send_failed_on_unopenable_file_as_it_should", 1)
+			r.Nontrivial = true
+			return r
+		}
 		if res.SendErr != nil {
 			r.ViolateD("send-failed", det(), "%s: Send failed against a conforming receiver: %v", desc, res.SendErr)
 		}
@@ -295,7 +324,9 @@ func c06Run(c *core.Ctx) *core.Result {
 			p := rr.stats[id].Path
 			if exp, ok := content[p]; ok {
 				r.Count("file_contents_checked", 1)
-				if !bytes.Equal(exp, got) {
+				if !bytes.Equal(exp, got) && p == openFail && len(got) == 0 {
+					r.ViolateD("open-error-sent-as-empty", det(), "%s: the file %q of the view could not be opened (%v) when id %d was requested; the request was answered with no payload and the terminator, and Send returned %v: the receiver stores an empty file and both ends succeed", desc, p, errInjected, id, res.SendErr)
+				} else if !bytes.Equal(exp, got) {
 					r.ViolateD("data-mismatch", det(), "%s: DATA for id %d (%q) concatenates to %d bytes that differ from the file's %d bytes", desc, id, p, len(got), len(exp))
 				}
 				if len(exp) > 32768 {
